@@ -204,7 +204,11 @@ def run_wideint_writes(cases, res):
             res.fail(c, 'C04: a write of wide integers raised %s' % lib.exc_name(e), got=str(e)[:200]); continue
         pend.append((c, got))
         reqs.append([4] + e_fmt(s, nw, nf) + [RMODES.index(c['r']), OMODES.index(c['o'])] + e_list([Fraction(v) for v in c['wide']], e_dy))
-    for (c, got), o in zip(pend, model_call(reqs)):
+        arr, vd = S.model_arr_enc('i', [int(v) for v in c['wide']])
+        reqs.append([10] + e_fmt(s, nw, nf) + [RMODES.index(c['r']), OMODES.index(c['o']), 0] + arr + [vd])
+    outs = model_call(reqs)
+    for i, (c, got) in enumerate(pend):
+        o = outs[2 * i]; mo = S.read_model_store(outs[2 * i + 1])
         rd = Reader(o); codes = rd.lst(rd.z); want = (rd.b(), rd.b(), rd.b())
         want_ev = [n for n, b in zip(('ovf', 'unf', 'inacc'), want) if b] + ['change']
         res.count('W:wide-integer-writes', key=repr(c), nontrivial=any(want))
@@ -212,7 +216,10 @@ def run_wideint_writes(cases, res):
         if got[0] != want or got[2] != codes:
             res.fail(c, 'C04: flags (or codes) after writing integers of more than 53 bits differ from the conditions on the exact integers', expected=(want, codes), got=(got[0], got[2])); continue
         if got[1] != want_ev and c['route'] != 'ctor':       # (the constructor performs writes of its own before the value)
-            res.fail(c, 'C04: callbacks after writing integers of more than 53 bits differ from the conditions that occurred', expected=want_ev, got=got[1])
+            res.fail(c, 'C04: callbacks after writing integers of more than 53 bits differ from the conditions that occurred', expected=want_ev, got=got[1]); continue
+        if mo['kind'] != 'ok' or mo['codes'] != got[2] or mo['status'] != got[0]:
+            res.fail(c, 'model Store.set_val_real (exact rational factor) disagrees with the implementation although the Spec agrees', expected=str(mo)[:200], got=(got[2], got[0]))
+            res.failures[-1]['no_input'] = True
 
 def shard(shard, nshards, rng, tier, extra):
     res = Result()
